@@ -42,6 +42,7 @@ type CheckCtx struct {
 
 	drv  *Driver
 	pool chan *Driver
+	variants bool // the driver pool also needs the -trimpath and sub-package builds
 
 	Models      []ModelRun
 	Validated   int            // scenarios / traces validated against the implementation
@@ -90,6 +91,9 @@ func (c *CheckCtx) buildPool(n int) error {
 	if err := parallelDo(n, n, func(i int) error {
 		d, err := buildDriver(c.Sc, fmt.Sprintf("prog_w%d", i))
 		ds[i] = d
+		if err == nil && c.variants {
+			err = d.buildVariants()
+		}
 		return err
 	}); err != nil {
 		return err
